@@ -63,7 +63,7 @@ Section UB.
 
   Lemma sosa_nonneg : forall s a o s1, (s < S)%nat -> (a < A)%nat -> (s1 < S)%nat -> 0 <= sosa m s a o s1.
   Proof.
-    intros. unfold sosa. apply Qmult_le_0_compat; [apply (Tp_nonneg m Hwf)| apply (Op_nonneg m Hwf)]; assumption.
+    intros. unfold sosa. apply Qmult_le_0_compat; [apply (Tp_nonneg m (wf_pomdp_weaken m Hwf))| apply (Op_nonneg m (wf_pomdp_weaken m Hwf))]; assumption.
   Qed.
 
   Lemma sosa_sum : forall s a, (s < S)%nat -> (a < A)%nat ->
@@ -72,8 +72,8 @@ Section UB.
     intros s a Hs Ha. rewrite qsum_swap.
     transitivity (qsum (map (fun s1 => Tp m s a s1) (seq 0 S))).
     - apply qsum_map_ext. intros s1 Hs1. apply in_seq in Hs1. unfold sosa.
-      rewrite qsum_map_mul_l. rewrite (orow_sum m Hwf) by (unfold S, A in *; assumption || lia). ring.
-    - apply (trow_sum m Hwf); assumption.
+      rewrite qsum_map_mul_l. rewrite (orow_sum m (wf_pomdp_weaken m Hwf)) by (unfold S, A in *; assumption || lia). ring.
+    - apply (trow_sum m (wf_pomdp_weaken m Hwf)); assumption.
   Qed.
 
   Lemma qget_fib_op : forall q s a, (s < S)%nat -> (a < A)%nat ->
@@ -108,7 +108,7 @@ Section UB.
     c * qsum (map (fun s1 => sosa m s a o s1) (seq 0 S)) <= fib_inner m q s a o.
   Proof.
     intros c q s a o Hs Ha H. unfold fib_inner. fold S A.
-    pose proof (HA m Hwf) as HAp. fold A in HAp.
+    pose proof (HA m (wf_pomdp_weaken m Hwf)) as HAp. fold A in HAp.
     eapply Qle_trans; [| apply maxl_ub; apply (in_map (fun a' => qsum (map (fun s1 => sosa m s a o s1 * qget q s1 a') (seq 0 S))) _ 0%nat); apply in_seq; lia].
     rewrite <- qsum_map_mul_l. apply qsum_map_le. intros s1 Hs1. apply in_seq in Hs1.
     pose proof (sosa_nonneg s a o s1 Hs Ha ltac:(lia)). pose proof (H s1 0%nat ltac:(lia) HAp). nra.
@@ -159,7 +159,7 @@ Section UB.
   Theorem supersol_dom : forall c q, tail_lo c -> tge_c c q -> tle (fib_op m q) q -> ubdom c q.
   Proof.
     intros c q Hc Hge Hsup n. pose proof (Hg m Hwf) as [G0 G1]. fold g in G0, G1.
-    pose proof (HA m Hwf) as HAp. fold A in HAp.
+    pose proof (HA m (wf_pomdp_weaken m Hwf)) as HAp. fold A in HAp.
     induction n as [|n IH]; intros t Hn Ht.
     - unfold W. cbn [EV]. rewrite pw_0.
       eapply Qle_trans; [| apply (lin_surface_ub q t 0%nat HAp)].
@@ -172,7 +172,7 @@ Section UB.
       + (* expand the FIB backup *)
         apply Qle_trans with (y := rew_at m t a + g * qsum (map (fun o => qsum (map (fun s => nthq t s * fib_inner m q s a o) (seq 0 S))) (seq 0 (nO m)))).
         * apply Qplus_le_r. apply Qmult_le_l; [exact G0|]. apply qsum_map_le. intros o _.
-          eapply Qle_trans; [apply IH; [apply (tau_step_nonneg m Hwf); [exact Hn| lia]| apply tau_step_length]|].
+          eapply Qle_trans; [apply IH; [apply (tau_step_nonneg m (wf_pomdp_weaken m Hwf)); [exact Hn| lia]| apply tau_step_length]|].
           apply lin_surface_tau_le; [exact Hn| exact Ht| unfold A; lia].
         * rewrite qsum_swap.
           assert (E : qsum (map (fun s => nthq t s * qget (fib_op m q) s a) (seq 0 S)) ==
@@ -228,7 +228,7 @@ Section UB.
     tge_c c (fib_start m) /\ tle (fib_op m (fib_start m)) (fib_start m).
   Proof.
     intros c Hok Hc Hlo. pose proof (Hg m Hwf) as [G0 G1]. fold g in G0, G1.
-    pose proof (HS m Hwf) as HSp. pose proof (HA m Hwf) as HAp. fold S in HSp. fold A in HAp.
+    pose proof (HS m Hwf) as HSp. pose proof (HA m (wf_pomdp_weaken m Hwf)) as HAp. fold S in HSp. fold A in HAp.
     set (R := maxl (Rall m)). set (d := denom m). set (k := Qred (R / d)).
     assert (Hd : 0 < d /\ 1 - g <= d /\ (1 # 10000 <= 1 - g -> d == 1 - g)).
     { unfold d, denom. fold g. split; [| split].
@@ -282,7 +282,7 @@ Section UB.
     - rewrite qsum_swap. apply Qle_lteq. right. apply qsum_map_ext. intros s1 Hs1. apply in_seq in Hs1.
       transitivity (qsum (map (fun o => Op m s1 a o * (Tp m s a s1 * maxl (map (fun a' => qget q s1 a') (seq 0 A)))) (seq 0 (nO m)))).
       + apply qsum_map_ext. intros o _. unfold sosa. ring.
-      + rewrite qsum_map_mul_r. rewrite (orow_sum m Hwf) by (unfold S, A in *; lia || assumption). ring.
+      + rewrite qsum_map_mul_r. rewrite (orow_sum m (wf_pomdp_weaken m Hwf)) by (unfold S, A in *; lia || assumption). ring.
   Qed.
 
   Lemma mdp_op_mono : forall q q', tle q q' -> tle (mdp_op q) (mdp_op q').
@@ -294,7 +294,7 @@ Section UB.
     { apply maxl_le; [apply mapA_ne|]. intros y Hy. apply in_map_iff in Hy. destruct Hy as [a' [<- Ha']].
       eapply Qle_trans; [| apply maxl_ub; apply (in_map (fun a' => qget q' s1 a')); exact Ha'].
       apply in_seq in Ha'. apply H; lia. }
-    pose proof (Tp_nonneg m Hwf s a s1 Hs Ha). nra.
+    pose proof (Tp_nonneg m (wf_pomdp_weaken m Hwf) s a s1 Hs Ha). nra.
   Qed.
 
   (* iterating both operators from a common start: the QMDP table stays above the FIB table *)
@@ -370,7 +370,7 @@ Section UB.
         assert (Hv : length v = S) by apply vi_v_length.
         apply Qle_trans with (y := rew_at m t a + g * qsum (map (fun o => vval m v (tau_step m t a o)) (seq 0 (nO m)))).
         - apply Qplus_le_r. apply Qmult_le_l; [exact G0|]. apply qsum_map_le. intros o _.
-          apply (proj1 (IH (tau_step m t a o) (tau_step_nonneg m Hwf t a o Hn ltac:(lia)) (tau_step_length m t a o))).
+          apply (proj1 (IH (tau_step m t a o) (tau_step_nonneg m (wf_pomdp_weaken m Hwf) t a o Hn ltac:(lia)) (tau_step_length m t a o))).
         - pose proof (vval_backup_vec m a (fun _ => v) t Ht) as Eb. fold g in Eb. rewrite <- Eb. unfold vval. fold S.
           apply Qle_lteq. right. apply qsum_map_ext. intros s Hs. apply in_seq in Hs.
           rewrite (nthq_backup_const m Hwf) by (fold S; lia). rewrite Qmult_comm. apply Qmult_comp; [reflexivity|].
